@@ -28,7 +28,8 @@ pub struct PairCase {
 
 pub fn pair_case(ptype: &'static str, w: &Weights, max_uni: usize, max_ops: usize) -> BoxedStrategy<PairCase> {
     (
-        gen::case_min(ptype, w, 3, max_uni, 6, max_ops),
+        // mostly small related maps; one case in sixteen starts from bulk insertions / complete chains
+        prop_oneof![15 => gen::case_min(ptype, w, 3, max_uni, 6, max_ops), 1 => gen::scale_case(ptype, w, 8)],
         gen::nav_prog(3),
         gen::nav_prog(3),
         prop_oneof![6 => Just(0u8), 2 => Just(1u8), 1 => Just(2u8)],
